@@ -39,6 +39,7 @@ def cases(draw):
     c["noise_seed"] = draw(st.integers(0, 2 ** 20))
     c["nan_T"] = draw(st.lists(st.integers(0, 399), max_size=8))
     c["inf_T"] = draw(st.lists(st.tuples(st.integers(0, 399), st.booleans()), max_size=2))
+    c["sentinel_T"] = draw(st.lists(st.tuples(st.integers(0, 399), st.sampled_from([-9999.0, 9999.0, -999.0, 999.9, 1e6])), max_size=2))  # finite "missing" codes of weather feeds
     c["nan_T_block"] = draw(st.one_of(st.none(), st.tuples(st.integers(0, 380), st.integers(2, 40))))
     c["nan_obs"] = draw(st.lists(st.integers(0, 399), max_size=8))
     c["nan_obs_block"] = draw(st.one_of(st.none(), st.tuples(st.integers(0, 380), st.integers(2, 40))))
@@ -72,6 +73,9 @@ def build(c):
     if c["nan_T_block"]:
         a, ln = c["nan_T_block"]
         T[a: a + ln] = np.nan
+    for k, v in c.get("sentinel_T", ()):
+        if k < n:
+            T[k] = v  # a finite temperature: the day keeps both its usage and its (absurd) prediction
     df = pd.DataFrame({"temperature": T}, index=idx)
     if c["input"] == "reads":
         obs = pd.Series(np.nan, index=idx)
